@@ -7,6 +7,7 @@ from pyvc.values import *
 from pyvc.engine import Res, Out, Unsupported
 from pyvc.registry import R
 from pyvc import classes as CL
+import specs.seqdict   # noqa: F401  (registers syntax.for, extended below)
 
 is_class = z3.Function("is_class", U, BoolS)
 instance_of = z3.Function("instance_of", U, U, BoolS)
@@ -287,3 +288,46 @@ def u_encode(E, st, recv, args, kw):
         else:
             out.append(E.raise_(s2, "builtins.AttributeError"))
     return out
+
+
+# iteration over an opaque sequence (the batch list): ghost index, elements u_getitem(x, i), length u_len(x) >= 0
+
+def opaque_for(E, st, node, it):
+    k = E.loop_ordinal(node)
+    key = "idx%d" % k
+    out = [may_raise(E, st, "iter")]            # a non-iterable batch payload
+    st.ghost[key] = VInt(0)
+    n = u_len(it.e)
+    st.assume(n >= 0)
+
+    def guard(h):
+        j = h.ghost[key].e
+        res = []
+        for s2, t in E.branch(h, j < n):
+            if t:
+                s2.assume(j >= 0)
+                elem = VOpaque(u_getitem(it.e, box_int(j)))
+                for ao in E.assign(node.target, elem, s2):
+                    if ao.kind == "next":
+                        res.append((ao.st, True, None))
+                    else:
+                        res.append((ao.st, None, ao))
+            else:
+                res.append((s2, False, None))
+        return res
+    return [o for o in E.cut_loop(node, st, guard, extra_frame=[("ghost", key)])] + \
+        [Out("raise", r.st, r.exc) for r in out]
+
+
+_orig_for = R.specs["syntax.for"]
+
+
+@R.spec("syntax.for", doc="for-loops over seqdict views (ghost index) and over opaque sequences (ghost index, u_getitem/u_len; may raise)")
+def for_any(E, st, args, kw):
+    node, it = args
+    if isinstance(it, VOpaque):
+        return opaque_for(E, st, node, it)
+    return _orig_for(E, st, args, kw)
+
+
+
